@@ -11,6 +11,7 @@ Theorem C16_conversion : forall sf charts tmpl_sf tmpl_chart,
   NoDupKeys sf -> (forall c, List.In c charts -> NoDupKeys c) -> sm_negative_timing sf = COk false ->
   let base := base_of Tables.blank_ssc_simfile tmpl_sf in
   let ct := chart_tmpl_of Tables.blank_ssc_chart tmpl_chart in
+  NoDupKeys ct ->
   exists out cs,
     sm_to_ssc sf charts tmpl_sf tmpl_chart = COk (out, snd base ++ cs) /\
     (forall k v, get k sf = Some v -> get k out = Some v) /\
@@ -21,6 +22,15 @@ Theorem C16_conversion : forall sf charts tmpl_sf tmpl_chart,
        (forall k, get k c = None -> get k c' = get k ct)).
 Proof. exact sm_to_ssc_spec. Qed.
 Print Assumptions C16_conversion.
+
+(* a converted chart that holds note data holds it as its last property, whatever the templates hold: what an SSC
+   chart writes last and reads back last, so the serialization loads back in the same key order *)
+Theorem C16_notes_last : forall sf charts tmpl_sf tmpl_chart out cs,
+  sm_to_ssc sf charts tmpl_sf tmpl_chart = COk (out, cs) ->
+  exists cs', cs = snd (base_of Tables.blank_ssc_simfile tmpl_sf) ++ cs' /\ length cs' = length charts /\
+    forall c', List.In c' cs' -> has kNOTES c' = true -> exists pre v, c' = pre ++ [(kNOTES, v)].
+Proof. exact sm_to_ssc_notes_last. Qed.
+Print Assumptions C16_notes_last.
 
 Theorem C16_negative_refused : forall sf charts tmpl_sf tmpl_chart,
   sm_negative_timing sf = COk true -> sm_to_ssc sf charts tmpl_sf tmpl_chart = CNotImpl.
@@ -36,7 +46,7 @@ Proof.
   unfold sm_to_ssc, convert_core in H. destruct (sm_negative_timing sf) as [[|]| | | |]; try discriminate.
   destruct ssc_tables_empty as [E1 _].
   destruct (copy_props Tables.invalid_ssc_simfile [] None sf _) as [o| | | |] eqn:Eo; try discriminate.
-  destruct (convert_charts _ _ _ _ charts); try discriminate. cbn [lift_charts] in H. inversion H; subst.
+  destruct (convert_charts _ _ _ _ _ charts); try discriminate. cbn [lift_charts] in H. inversion H; subst.
   apply (proj1 (copy_get_all _ E1 sf _ out Hnd Eo)). exact G.
 Qed.
 Print Assumptions C16_timing_strings_kept.
@@ -49,6 +59,7 @@ Theorem C16_timing_identical : forall sf charts tmpl_chart out cs,
   sm_to_ssc sf charts None tmpl_chart = COk (out, cs) ->
   has kBPMS sf = true -> has kSTOPS sf = true -> has kOFFSET sf = true -> has kVERSION sf = false ->
   chart_has_timing (chart_tmpl_of Tables.blank_ssc_chart tmpl_chart) = false ->
+  NoDupKeys (chart_tmpl_of Tables.blank_ssc_chart tmpl_chart) ->
   (forall c key, List.In c charts -> List.In key Tables.chart_timing_properties -> get key c = None) ->
   forall i c c', nth_error charts i = Some c -> nth_error cs i = Some c' ->
     timing_data KSSC out CSSC c' = timing_data KSM sf CSM c.
